@@ -15,7 +15,7 @@ ASSUMPTIONS = [
 ]
 
 HOOK_COMMITS = ["aa112f6", "48cb0fd"]
-FIX_COMMITS = ["536bdea", "2163003", "086d718", "eebbb00", "ae8746e", "813750d", "4dcfce1", "affca7a", "6634824", "7638f19", "8a1300b", "fe98d51", "caf36c4", "e4b64f7", "0c686df", "48a484d", "a33ca28", "1d2c9d7", "159b1e5", "a12e15f", "efcde62", "04ea757"]
+FIX_COMMITS = ["536bdea", "2163003", "086d718", "eebbb00", "ae8746e", "813750d", "4dcfce1", "affca7a", "6634824", "7638f19", "8a1300b", "fe98d51", "caf36c4", "e4b64f7", "0c686df", "48a484d", "a33ca28", "1d2c9d7", "159b1e5", "a12e15f", "efcde62", "04ea757", "0a7b67b"]
 NOT_YET = {}
 
 CFG = {
